@@ -43,6 +43,20 @@ def load_variants():
             if expect:
                 out.append({"id": "S-" + d, "kind": "breaking", "desc": "seeded: " + (meta.get("summary") or "")[:70], "edits": [],
                             "patchfile": pp, "expect": expect})
+    # independently written behaviour-preserving refactorings (sub-agents; each passes the repository's suite):
+    # every check must stay silent on every one of them
+    rdir = os.path.join(os.path.dirname(HERE), "refactors")
+    if os.path.isdir(rdir):
+        for d in sorted(os.listdir(rdir)):
+            pp = os.path.join(rdir, d, "patch.diff")
+            if not os.path.exists(pp):
+                continue
+            try:
+                meta = json.load(open(os.path.join(rdir, d, "meta.json")))
+            except (ValueError, OSError):
+                meta = {}
+            out.append({"id": "F-" + d, "kind": "preserving", "desc": "refactor: " + (meta.get("summary") or "")[:70], "edits": [],
+                        "patchfile": pp, "pids": None})
     return out
 
 
